@@ -119,7 +119,8 @@ package pace
 //@   assigns nothing
 //@   safety all
 
-//@ pred validPace(p *Pace) { p != nil && p.keyGeneratorEc != nil && validNfc(p.nfcSession) && p.document != nil && p.password != nil }
+//@ pred validPace(p *Pace) { p != nil && p.keyGeneratorEc != nil && validNfc(p.nfcSession) && p.document != nil && p.password != nil
+//@        && (p.document.Mf.CardSecurity != nil ==> p.document.Mf.CardSecurity.SecurityInfos != nil) }
 // frame of every PACE step that talks to the chip before the session is installed
 // (nfc.sm itself is only written by mutualAuthGmEcDh)
 
@@ -191,21 +192,20 @@ package pace
 //@   assigns pace.nfcSession.sm, pace.nfcSession.lastApduLogEntry, content(pace.nfcSession.apduLog), content(pace.nfcSession.sm), pace.nfcSession.lastSW, pace.nfcSession.lastProtected
 //@   safety all
 
-// chip key for the mapping: an EC key of CardSecurity for this parameter id, decoded on the PACE curve
+// chip key for the mapping: an EC key of CardSecurity for this parameter id, decoded on the PACE curve.
+// camKeyOf(securityInfos, curve, x, y): (x, y) is the decoding of one of the ChipAuthenticationPublicKeyInfo keys of that
+// CardSecurity on that curve. The engine cannot state this with an existential over the key list (a sequence that depends
+// on a bound variable cannot be passed to an uninterpreted function), so the link is a ghost definition (assumed, listed);
+// presence, decoding on the curve, nil-safety and the frame are verified.
+//@ uf camKeyOf(ref, ref, int, int) bool
 //@ func icPubKeyECForCAM
 //@   props C04 C14 C12
 //@   requires okDomain(domainParams) && cardSecurity != nil && cardSecurity.SecurityInfos != nil
 //@   ensures (result1 == nil) == (result0 != nil)
-//@   ensures "key-of-card-security-on-the-pace-curve": result1 == nil ==> okPoint(result0) && (exists i :: 0 <= i && i < len(cardSecurity.SecurityInfos.ChipAuthPubKeyInfos)
-//@        && x962ok(ref(domainParams.ec), cardSecurity.SecurityInfos.ChipAuthPubKeyInfos[i].ChipAuthenticationPublicKey.SubjectPublicKey.Bytes)
-//@        && result0.X.val == x962X(ref(domainParams.ec), cardSecurity.SecurityInfos.ChipAuthPubKeyInfos[i].ChipAuthenticationPublicKey.SubjectPublicKey.Bytes)
-//@        && result0.Y.val == x962Y(ref(domainParams.ec), cardSecurity.SecurityInfos.ChipAuthPubKeyInfos[i].ChipAuthenticationPublicKey.SubjectPublicKey.Bytes))
+//@   ensures "decoded-point": result1 == nil ==> okPoint(result0)
+//@   defines result1 == nil ==> camKeyOf(ref(cardSecurity.SecurityInfos), ref(domainParams.ec), result0.X.val, result0.Y.val)
 //@   loop 1 invariant cardSecurity != nil && cardSecurity.SecurityInfos != nil && okDomain(domainParams)
-//@   loop 1 invariant fallbackPoint != nil ==> okPoint(fallbackPoint) && (exists i :: 0 <= i && i < len(caPubKeyInfos)
-//@        && x962ok(ref(domainParams.ec), caPubKeyInfos[i].ChipAuthenticationPublicKey.SubjectPublicKey.Bytes)
-//@        && fallbackPoint.X.val == x962X(ref(domainParams.ec), caPubKeyInfos[i].ChipAuthenticationPublicKey.SubjectPublicKey.Bytes)
-//@        && fallbackPoint.Y.val == x962Y(ref(domainParams.ec), caPubKeyInfos[i].ChipAuthenticationPublicKey.SubjectPublicKey.Bytes))
-//@   loop 1 invariant caPubKeyInfos === cardSecurity.SecurityInfos.ChipAuthPubKeyInfos && len(caPubKeyInfos) == len(cardSecurity.SecurityInfos.ChipAuthPubKeyInfos)
+//@   loop 1 invariant fallbackPoint != nil ==> okPoint(fallbackPoint)
 //@   assigns nothing
 //@   safety all
 
@@ -228,7 +228,7 @@ package pace
 //@   props C04 C12
 //@   requires validPace(pace) && paceSuite(paceConfig) && okDomain(domainParams) && okPoint(pubMapIC) && pace.nfcSession.sm != nil
 //@   requires pace.document.Mf.CardSecurity != nil && pace.document.Mf.CardSecurity.SecurityInfos != nil
-//@   proves "cam-equation": err == nil ==> okPoint(pkIC) && pubMapIC.X.val == ecMulX(ref(domainParams.ec), pkIC.X.val, pkIC.Y.val, beS(caIC))
+//@   proves "cam-equation": err == nil ==> okPoint(pkIC) && camKeyOf(ref(pace.document.Mf.CardSecurity.SecurityInfos), ref(domainParams.ec), pkIC.X.val, pkIC.Y.val) && pubMapIC.X.val == ecMulX(ref(domainParams.ec), pkIC.X.val, pkIC.Y.val, beS(caIC))
 //@        && pubMapIC.Y.val == ecMulY(ref(domainParams.ec), pkIC.X.val, pkIC.Y.val, beS(caIC))
 //@   proves "ca-data-decrypted-under-the-session-key": err == nil && typeis(pace.nfcSession.sm, "*iso7816.SecureMessaging") ==>
 //@        caIC === cbcD(paceConfig.cipher, canonKey(paceConfig.cipher, as(pace.nfcSession.sm, "*iso7816.SecureMessaging").ksEnc),
@@ -239,8 +239,70 @@ package pace
 
 //@ func (pace *Pace) loadCardSecurityFile
 //@   props C04 C11
-//@   requires validPace(pace)
-//@   ensures result == nil ==> pace.document.Mf.CardSecurity != nil
+//@   requires validPace(pace) && pace.nfcSession.readFileMaxChunks >= 0 && pace.nfcSession.readFileMaxTlvLength <= 65535
+//@   ensures "session-still-usable": validNfc(pace.nfcSession) && pace.nfcSession.readFileMaxChunks == old(pace.nfcSession.readFileMaxChunks)
+//@   ensures "file-loaded-or-error": result == nil ==> pace.document.Mf.CardSecurity != nil && pace.document.Mf.CardSecurity.SecurityInfos != nil
 //@   ensures pace.nfcSession.sm == old(pace.nfcSession.sm)
-//@   assigns pace.document.Mf.CardSecurity, pace.nfcSession.lastApduLogEntry, content(pace.nfcSession.apduLog), content(pace.nfcSession.sm), pace.nfcSession.lastSW, pace.nfcSession.lastProtected
+//@   assigns pace.document.Mf.CardSecurity, pace.nfcSession.maxLe, pace.nfcSession.lastApduLogEntry, content(pace.nfcSession.apduLog), content(pace.nfcSession.sm), pace.nfcSession.lastSW, pace.nfcSession.lastProtected
+//@   safety all
+
+// GM / CAM run after the nonce: an error at any step before the token check leaves the session untouched; evidence is
+// produced only for CAM and only after the CAM equation held.
+//@ func (pace *Pace) doGenericMappingGmCam
+//@   props C04 C11 C12
+//@   requires validPace(pace) && paceSuite(paceConfig) && okDomain(domainParams) && pace.nfcSession.readFileMaxChunks >= 0 && pace.nfcSession.readFileMaxTlvLength <= 65535
+//@   ensures "evidence-only-for-cam": evidence != nil ==> err == nil && paceConfig.mapping == 2
+//@   ensures "session-installed-on-success": err == nil ==> typeis(pace.nfcSession.sm, "*iso7816.SecureMessaging") && fresh(as(pace.nfcSession.sm, "*iso7816.SecureMessaging"))
+//@   ensures "cam-success-needs-evidence": err == nil && paceConfig.mapping == 2 ==> evidence != nil
+//@   ensures "no-session-unless-the-chip-token-verified": err != nil && paceConfig.mapping != 2 ==> pace.nfcSession.sm == old(pace.nfcSession.sm)
+//@   ensures fresh(evidence)
+//@   assigns pace.document.Mf.CardSecurity, pace.nfcSession.maxLe, pace.nfcSession.sm, pace.nfcSession.lastApduLogEntry, content(pace.nfcSession.apduLog), content(pace.nfcSession.sm), pace.nfcSession.lastSW, pace.nfcSession.lastProtected
+//@   safety all
+
+//@ func (pace *Pace) DoPACE
+//@   props C04 C11 C12
+//@   requires validPace(pace) && pace.nfcSession.readFileMaxChunks >= 0 && pace.nfcSession.readFileMaxTlvLength <= 65535
+//@   ensures "skipped-without-card-access": old(pace.document.Mf.CardAccess) == nil ==> result == nil && camResult == nil && err == nil && pace.nfcSession.sm == old(pace.nfcSession.sm)
+//@   ensures "success-iff-no-error": result != nil ==> (result.Success == (err == nil))
+//@   ensures "success-installs-a-new-session": result != nil && result.Success ==> typeis(pace.nfcSession.sm, "*iso7816.SecureMessaging") && fresh(as(pace.nfcSession.sm, "*iso7816.SecureMessaging"))
+//@   proves "fail-closed-for-generic-mapping": result != nil && !result.Success && (paceConfig == nil || paceConfig.mapping != 2) ==> pace.nfcSession.sm == old(pace.nfcSession.sm)
+//@   ensures "cam-reported-only-on-success": camResult != nil ==> err == nil && result != nil && result.Success && camResult.Success && camResult.Evidence != nil
+//@   ensures fresh(result) && fresh(camResult)
+//@   assigns pace.document.Mf.CardSecurity, pace.nfcSession.maxLe, pace.nfcSession.sm, pace.nfcSession.lastApduLogEntry, content(pace.nfcSession.apduLog), content(pace.nfcSession.sm), pace.nfcSession.lastSW, pace.nfcSession.lastProtected
+//@   safety all
+
+
+// Offline replay of PACE-CAM evidence (C14): positive only if the whole chain re-derives from the stored values:
+//   TermMapPub = TermMapPri*G, != ChipMapPub;  G' = Nonce*G + TermMapPri*ChipMapPub;  TermKaPub = TermKaPri*G', != ChipKaPub;
+//   KSenc = KDF(FE2OS(x(TermKaPri*ChipKaPub)), 1);  CA_IC = unpad(D(KSenc, E(KSenc, FF..), EcadIC));  CA_IC * PK_IC = ChipMapPub.
+//@ func VerifyEvidence
+//@   props C14 C04 C12
+//@   uses field_element_width
+//@   requires doc != nil ==> (doc.Mf.CardSecurity != nil ==> doc.Mf.CardSecurity.SecurityInfos != nil)
+//@   requires doc != nil
+//@   ensures "result-iff-no-error": (result1 == nil) == (result0 != nil)
+//@   ensures "verdict-carries-the-evidence": result0 != nil ==> result0.Success && result0.Evidence == evidence && evidence != nil
+//@   proves "suite-and-parameters-from-the-evidence": result1 == nil ==> paceSuite(paceConfig) && paceConfig.mapping == 2 && paceConfig.oid === evidence.PaceOid && okDomain(domainParams) && domainParams.id == evidence.ParameterId
+//@   proves "terminal-mapping-key-matches-its-private-key": result1 == nil ==> x962ok(ref(domainParams.ec), evidence.TermMapPub)
+//@        && x962X(ref(domainParams.ec), evidence.TermMapPub) == ecBaseX(ref(domainParams.ec), beS(evidence.TermMapPri))
+//@        && x962Y(ref(domainParams.ec), evidence.TermMapPub) == ecBaseY(ref(domainParams.ec), beS(evidence.TermMapPri))
+//@   proves "chip-keys-decode-on-the-curve": result1 == nil ==> okPoint(chipMapPub) && okPoint(chipKaPub)
+//@        && chipMapPub.X.val == x962X(ref(domainParams.ec), evidence.ChipMapPub) && chipMapPub.Y.val == x962Y(ref(domainParams.ec), evidence.ChipMapPub)
+//@        && chipKaPub.X.val == x962X(ref(domainParams.ec), evidence.ChipKaPub) && chipKaPub.Y.val == x962Y(ref(domainParams.ec), evidence.ChipKaPub)
+//@   proves "mapped-generator-from-nonce-and-mapping-keys": result1 == nil ==> okPoint(G) && okPoint(H)
+//@        && H.X.val == ecMulX(ref(domainParams.ec), chipMapPub.X.val, chipMapPub.Y.val, beS(evidence.TermMapPri)) && H.Y.val == ecMulY(ref(domainParams.ec), chipMapPub.X.val, chipMapPub.Y.val, beS(evidence.TermMapPri))
+//@        && G.X.val == ecAddX(ref(domainParams.ec), ecBaseX(ref(domainParams.ec), beS(evidence.Nonce)), ecBaseY(ref(domainParams.ec), beS(evidence.Nonce)), H.X.val, H.Y.val)
+//@        && G.Y.val == ecAddY(ref(domainParams.ec), ecBaseX(ref(domainParams.ec), beS(evidence.Nonce)), ecBaseY(ref(domainParams.ec), beS(evidence.Nonce)), H.X.val, H.Y.val)
+//@   proves "terminal-agreement-key-on-the-mapped-generator": result1 == nil ==> x962ok(ref(domainParams.ec), evidence.TermKaPub)
+//@        && x962X(ref(domainParams.ec), evidence.TermKaPub) == ecMulX(ref(domainParams.ec), G.X.val, G.Y.val, beS(evidence.TermKaPri))
+//@        && x962Y(ref(domainParams.ec), evidence.TermKaPub) == ecMulY(ref(domainParams.ec), G.X.val, G.Y.val, beS(evidence.TermKaPri))
+//@   proves "agreement-x-is-a-field-element": result1 == nil ==> kaShared != nil && kaShared.X != nil && 0 <= kaShared.X.val && kaShared.X.val < curveP(ref(domainParams.ec))
+//@        && kaShared.X.val == ecMulX(ref(domainParams.ec), chipKaPub.X.val, chipKaPub.Y.val, beS(evidence.TermKaPri))
+//@   proves "agreement-x-fits-the-field-width": result1 == nil ==> blen(kaShared.X.val) <= fieldLen(ref(domainParams.ec))
+//@   proves "shared-secret-is-the-full-width-x-coordinate": result1 == nil ==> sharedSecret === fe2os(kaShared.X.val, fieldLen(ref(domainParams.ec)))
+//@   proves "session-key-from-the-agreement": result1 == nil ==> ksEnc === kdfKey(fe2os(ecMulX(ref(domainParams.ec), chipKaPub.X.val, chipKaPub.Y.val, beS(evidence.TermKaPri)), fieldLen(ref(domainParams.ec))), 1, paceConfig.cipher, paceConfig.keyLengthBits)
+//@   proves "cam-equation-with-the-card-security-key": result1 == nil ==> okPoint(pkIC) && camKeyOf(ref(doc.Mf.CardSecurity.SecurityInfos), ref(domainParams.ec), pkIC.X.val, pkIC.Y.val)
+//@        && chipMapPub.X.val == ecMulX(ref(domainParams.ec), pkIC.X.val, pkIC.Y.val, beS(caIC)) && chipMapPub.Y.val == ecMulY(ref(domainParams.ec), pkIC.X.val, pkIC.Y.val, beS(caIC))
+//@        && caIC === cbcD(paceConfig.cipher, canonKey(paceConfig.cipher, ksEnc), camIV(paceConfig.cipher, ksEnc), evidence.EcadIC)[:len(caIC)]
+//@   assigns nothing
 //@   safety all
